@@ -106,7 +106,12 @@ func genHashKeys(r *kernel.RNG, n int) []hkey {
 		case 3:
 			add(hkey{"chr", r.Pick([]string{"'c'", "'a'", "'Z'"})})
 		case 4:
-			add(hkey{"arr1", strconv.Itoa(r.PickInt([]int{3, 5, 8}))})
+			if r.Chance(0.3) {
+				// wrapped more than once: [[3]] is the key 3 like [3]
+				add(hkey{"arr2", strconv.Itoa(r.PickInt([]int{3, 5, 8}))})
+			} else {
+				add(hkey{"arr1", strconv.Itoa(r.PickInt([]int{3, 5, 8}))})
+			}
 		case 5:
 			add(hkey{"arrN", r.Pick([]string{"[1 2]", "[0 0]", "[1 2 3]", "[\"p\" 1]"})})
 		case 6:
@@ -117,6 +122,10 @@ func genHashKeys(r *kernel.RNG, n int) []hkey {
 		case 7:
 			add(hkey{"str", fnvPair[0]})
 			add(hkey{"str", fnvPair[1]})
+			if r.Chance(0.6) {
+				// and the integer equal to their common hash code: a bucket of three
+				add(hkey{"int", strconv.FormatUint(uint64(fnv1(fnvPair[0])), 10)})
+			}
 		}
 	}
 	return ks
@@ -132,7 +141,7 @@ func specCanon(k hkey) string {
 		return "int:" + k.Text
 	case "chr":
 		return "chr:" + strconv.Itoa(int([]rune(strings.Trim(k.Text, "'"))[0]))
-	case "arr1":
+	case "arr1", "arr2":
 		return "int:" + k.Text
 	case "arrN":
 		return "arr:" + k.Text
@@ -174,7 +183,7 @@ func genHashScenario(r *kernel.RNG, tier string, i int) interface{} {
 		n = r.Range(1, 10)
 	}
 	// swarm: per-scenario op weights
-	w := []int{r.Range(1, 6), r.Range(0, 6), r.Range(0, 3), r.Range(0, 3), r.Range(0, 2), 1, r.Range(0, 2)}
+	w := []int{r.Range(1, 6), r.Range(0, 6), r.Range(0, 3), r.Range(0, 3), r.Range(0, 2), 1, r.Range(0, 2), r.Range(0, 2)}
 	hasAlias := false
 	for j := 0; j < n; j++ {
 		op := hop{K: r.Intn(len(sc.Keys)), V: 1000 + j}
@@ -201,6 +210,9 @@ func genHashScenario(r *kernel.RNG, tier string, i int) interface{} {
 			}
 		case 6:
 			op.Op = "keysmut"
+		case 7:
+			// a key whose value is nil is a key like any other
+			op.Op = "hsetnil"
 		}
 		if hasAlias && op.Op != "alias" {
 			op.Via = r.Pick([]string{"h", "g", "arr"})
@@ -373,6 +385,9 @@ func jsonMembers(txt string) (names []string, vals []int, order []string, err er
 		v, cerr := strconv.Atoi(strings.TrimSpace(string(raw)))
 		if cerr != nil {
 			v = -1
+			if t := strings.TrimSpace(string(raw)); t == "null" || t == "nil" {
+				v = 0
+			}
 		}
 		vals = append(vals, v)
 	}
@@ -383,6 +398,30 @@ func jsonMembers(txt string) (names []string, vals []int, order []string, err er
 		return nil, nil, nil, fmt.Errorf("trailing data")
 	}
 	return names, vals, order, nil
+}
+
+// intOrNil: the model's number for a value read back: the integer, 0 for nil, -1 for anything else
+func intOrNil(x zygo.Sexp) int {
+	switch v := x.(type) {
+	case *zygo.SexpInt:
+		return int(v.Val)
+	case *zygo.SexpSentinel:
+		if x == zygo.SexpNull {
+			return 0
+		}
+	}
+	return -1
+}
+
+// nonNil: the values that are not nil (the printed forms are mined for the integers only)
+func nonNil(vs []int) []int {
+	var out []int
+	for _, v := range vs {
+		if v != 0 {
+			out = append(out, v)
+		}
+	}
+	return out
 }
 
 func eqInts(a, b []int) bool {
@@ -424,6 +463,8 @@ func execHash(body json.RawMessage) *kernel.Result {
 			src[i] = k.Text
 		case "arr1":
 			src[i] = "[" + k.Text + "]"
+		case "arr2":
+			src[i] = "[[" + k.Text + "]]"
 		case "symnum":
 			n := env.MakeSymbol(k.Text).Number()
 			symnums[n] = k.Text
@@ -432,7 +473,7 @@ func execHash(body json.RawMessage) *kernel.Result {
 	}
 	// a plain int key that happens to equal a used symbol number would be misread; drop the mapping then
 	for i, k := range sc.Keys {
-		if k.Kind == "int" || k.Kind == "arr1" {
+		if k.Kind == "int" || k.Kind == "arr1" || k.Kind == "arr2" {
 			v, _ := strconv.Atoi(k.Text)
 			if _, clash := symnums[v]; clash {
 				_ = i
@@ -583,7 +624,7 @@ func execHash(body json.RawMessage) *kernel.Result {
 			want, live := m.vals[canon[i]]
 			o := ev(fmt.Sprintf("(hget h %s)", src[i]))
 			if live {
-				if iv, isInt := o.Val.(*zygo.SexpInt); !o.OK() || !isInt || int(iv.Val) != want {
+				if !o.OK() || intOrNil(o.Val) != want {
 					fail("C14.V-value", "hget", "step %d: (hget h %s) = %s, model %d", step, src[i], o, want)
 					ok = false
 				}
@@ -611,9 +652,7 @@ func execHash(body json.RawMessage) *kernel.Result {
 				k := sexpCanon(pr.Head, symnums)
 				var v int = -1
 				if t, isT := pr.Tail.(*zygo.SexpPair); isT {
-					if iv, isInt := t.Head.(*zygo.SexpInt); isInt {
-						v = int(iv.Val)
-					}
+					v = intOrNil(t.Head)
 				}
 				good = k == m.keys[i] && v == m.vals[m.keys[i]]
 			}
@@ -630,8 +669,8 @@ func execHash(body json.RawMessage) *kernel.Result {
 		} else if !balancedPrint(s.S) {
 			fail("C14.O-order", "str-form", "step %d: (str h) = %q is not a well-formed printed hash (unbalanced brackets); content %v", step, s.S, m.keys)
 			ok = false
-		} else if got := bigInts(s.S); !eqInts(got, m.valueList()) {
-			fail("C14.O-order", "str", "step %d: (str h) = %q shows values %v, model %v", step, s.S, got, m.valueList())
+		} else if got := bigInts(s.S); !eqInts(got, nonNil(m.valueList())) {
+			fail("C14.O-order", "str", "step %d: (str h) = %q shows values %v, model %v", step, s.S, got, nonNil(m.valueList()))
 			ok = false
 		}
 		// range iteration, both forms
@@ -666,11 +705,7 @@ func execHash(body json.RawMessage) *kernel.Result {
 			} else {
 				var got []int
 				for _, x := range arr.Val {
-					if iv, isInt := x.(*zygo.SexpInt); isInt {
-						got = append(got, int(iv.Val))
-					} else {
-						got = append(got, -1)
-					}
+					got = append(got, intOrNil(x))
 				}
 				if !eqInts(got, m.valueList()) {
 					fail("C14.O-order", rf.name, "step %d: range visited values %v, model %v", step, got, m.valueList())
@@ -740,11 +775,7 @@ func execHash(body json.RawMessage) *kernel.Result {
 						} else {
 							var got []int
 							for _, x := range arr.Val {
-								if iv, isInt := x.(*zygo.SexpInt); isInt {
-									got = append(got, int(iv.Val))
-								} else {
-									got = append(got, -1)
-								}
+								got = append(got, intOrNil(x))
 							}
 							if !eqInts(got, m.valueList()) {
 								fail("C14.O-order", "roundtrip", "step %d: %s holds values %v, model %v", step, rtCode, got, m.valueList())
@@ -789,7 +820,7 @@ func execHash(body json.RawMessage) *kernel.Result {
 			switch {
 			case op.Route == "index" && op.Via != "arr":
 				ik := k
-				if sc.Keys[op.K].Kind == "arr1" || sc.Keys[op.K].Kind == "arrN" {
+				if sc.Keys[op.K].Kind == "arr1" || sc.Keys[op.K].Kind == "arrN" || sc.Keys[op.K].Kind == "arr2" {
 					ik = strings.Trim(k, "[]") // h[1 2] indexes with the array key [1 2]
 				}
 				text = fmt.Sprintf("{%s[%s] = %d}", H, ik, op.V)
@@ -835,7 +866,7 @@ func execHash(body json.RawMessage) *kernel.Result {
 		case "hget":
 			o := ev(fmt.Sprintf("(hget %s %s)", H, k))
 			if live {
-				if iv, isInt := o.Val.(*zygo.SexpInt); !o.OK() || !isInt || int(iv.Val) != m.vals[ck] {
+				if !o.OK() || intOrNil(o.Val) != m.vals[ck] {
 					fail("C14.V-value", "hget", "step %d: (hget %s %s) = %s, model %d", step, H, k, o, m.vals[ck])
 				}
 			} else if o.Kind() != "err" {
@@ -847,9 +878,21 @@ func execHash(body json.RawMessage) *kernel.Result {
 			if live {
 				want = m.vals[ck]
 			}
-			if iv, isInt := o.Val.(*zygo.SexpInt); !o.OK() || !isInt || int(iv.Val) != want {
+			if !o.OK() || intOrNil(o.Val) != want {
 				fail("C14.V-value", "hget-default", "step %d: (hget %s %s 77) = %s, model %d", step, H, k, o, want)
 			}
+		case "hsetnil":
+			o := ev(fmt.Sprintf("(hset %s %s nil)", H, k))
+			if !o.OK() && !o.Panicked && sc.Keys[op.K].Kind == "dotsym" {
+				res.Probe("dotted-key-refused")
+				break
+			}
+			if !o.OK() {
+				fail("C14.V-value", "hset-nil", "step %d: (hset %s %s nil) gave %s", step, H, k, o)
+				return res
+			}
+			res.Probe("nil-value-stored")
+			m.set(ck, 0) // 0 stands for nil in the model (real values are >= 900)
 		case "obs":
 		case "keysmut":
 			// the list returned by keys belongs to the caller: writing into it and growing it changes nothing in the hash
